@@ -4,6 +4,7 @@ package main
 
 import (
 	"fmt"
+	"go/ast"
 	"os"
 	"go/constant"
 	"go/token"
@@ -990,13 +991,22 @@ func (fc *fctx) bindLoopVars(env *Env, b *ssa.BasicBlock, ord int, phiVal func(*
 			continue
 		}
 		for _, instr := range d.Instrs {
-			phi, ok := instr.(*ssa.Phi)
-			if !ok {
-				break
-			}
-			if phi.Comment != "" && phi.Comment != "rangeindex" {
-				if vs, ok := fc.vals[phi]; ok && len(vs) == 1 {
-					env.vars[phi.Comment] = vs[0]
+			switch x := instr.(type) {
+			case *ssa.Phi:
+				if x.Comment != "" && x.Comment != "rangeindex" {
+					if vs, ok := fc.vals[x]; ok && len(vs) == 1 {
+						env.vars[x.Comment] = vs[0]
+					}
+				}
+			case *ssa.DebugRef:
+				// a local variable of the source program, assigned before the loop
+				if id, ok := x.Expr.(*ast.Ident); ok && !x.IsAddr {
+					if _, isParam := x.X.(*ssa.Parameter); isParam {
+						continue
+					}
+					if vs, ok := fc.vals[x.X]; ok && len(vs) == 1 {
+						env.vars[id.Name] = vs[0]
+					}
 				}
 			}
 		}
